@@ -98,6 +98,17 @@ def _rand_group(lt, shape, rs, dtype):
     n = int(np.prod(shape)) if len(shape) else 1
     q = rs.randn(n, 4); q /= np.linalg.norm(q, axis=1, keepdims=True)
     t = rs.randn(n, 3); s = np.exp(0.3 * rs.randn(n, 1))
+    # regime-mixed batches: pypose selects its small-angle / unit-scale / zero-translation formulas per item with boolean masks,
+    # and a mask that couples items (values taken in mask order, a batch-wide any()/all()) is invisible when every item of a batch
+    # is generic.  About a third of the items therefore sit EXACTLY on such a regime (seed C06d).
+    kind = rs.randint(0, 9, size=n) if n else np.zeros(0, dtype=int)
+    for i in range(n):
+        if kind[i] == 0:
+            s[i] = 1.0                                  # scale exactly 1 (log-scale exactly 0)
+        elif kind[i] == 1:
+            q[i] = [0.0, 0.0, 0.0, 1.0]                 # identity rotation
+        elif kind[i] == 2:
+            q[i] = [0.0, 0.0, 0.0, 1.0]; s[i] = 1.0; t[i] = 0.0     # the identity element
     d = {"SO3": q, "SE3": np.concatenate([t, q], 1), "RxSO3": np.concatenate([q, s], 1), "Sim3": np.concatenate([t, q, s], 1)}[lt]
     return pp.LieTensor(torch.tensor(d, dtype=tu.TD[dtype]).reshape(tuple(shape) + (d.shape[1],)), ltype=tu.LT[lt])
 
@@ -107,6 +118,15 @@ def _rand_alg(lt, shape, rs, dtype, scale=0.7):
     d = scale * rs.randn(n, R.ADIM[lt])
     if lt in ("rxso3", "sim3"):
         d[:, -1] *= 0.3
+    kind = rs.randint(0, 9, size=n) if n else np.zeros(0, dtype=int)        # regime-mixed batches, see _rand_group
+    r0 = {"so3": 0, "se3": 3, "rxso3": 0, "sim3": 3}[lt]
+    for i in range(n):
+        if kind[i] == 0 and lt in ("rxso3", "sim3"):
+            d[i, -1] = 0.0                              # log-scale exactly 0
+        elif kind[i] == 1:
+            d[i, r0:r0 + 3] = 0.0                       # rotation part exactly 0
+        elif kind[i] == 2:
+            d[i, :] = 0.0                               # the zero element
     return pp.LieTensor(torch.tensor(d, dtype=tu.TD[dtype]).reshape(tuple(shape) + (R.ADIM[lt],)), ltype=tu.LT[lt])
 
 
